@@ -1,5 +1,5 @@
 """Which catalogue variants does ONE shared rule report on its own?
-usage: rule_probe.py <shared rule function> [file substring ...]
+usage: rule_probe.py <shared rule function | module:function[:extra arg]> [file substring ...]
 Used to see how much of the catalogue a decision table subsumes."""
 import multiprocessing
 import os
@@ -21,7 +21,13 @@ def one(mid):
   try:
     v = index.Repo(BASE.root, overlay=ov, base=BASE)
     ctx = report.Ctx(m.prop, v, 'quick', 0, True)
-    getattr(shared, FN)(ctx, 'X.R1')
+    if ':' in FN:
+      import importlib  # pylint: disable=g-import-not-at-top
+      parts = FN.split(':')
+      fn = getattr(importlib.import_module('sa.rules.' + parts[0]), parts[1])
+      fn(ctx, 'X.R1', *parts[2:])
+    else:
+      getattr(shared, FN)(ctx, 'X.R1')
     return mid, ('REPORTS' if ctx.violations else 'silent') + (' (twin)' if m.kind == 'twin' else '')
   except index.AnalysisError as e:
     return mid, 'analysis-error ' + str(e)[:80]
